@@ -194,6 +194,16 @@ def case_mtl(sp):
     obs.append(Ob("overlapping_default_sets_rejected", raised == overlap, cex))
     if raised or overlap:
         return obs
+    # mixed call: shared_params defaulted, tasks_params explicit and PARTIAL (first task lists nothing): the omitted head leaves get nothing
+    p3 = Prog(spec)
+    partial = [[]] + [[p3[n] for n in sorted(x)] for x in ref_tasks[1:]]
+    mtl_backward([p3[l] for l in losses], [p3[f] for f in feats], Constant(T(w)), tasks_params=partial)
+    p4 = Prog(spec)
+    mtl_backward([p4[l] for l in losses], [p4[f] for f in feats], Constant(T(w)), tasks_params=[[]] + [[p4[n] for n in sorted(x)] for x in ref_tasks[1:]],
+                 shared_params=[p4[n] for n in sorted(ref_shared)])
+    for n in p3.leaf_names():
+        g3, g4 = grad_list(p3[n]), grad_list(p4[n])
+        obs.append(Ob("explicit_tasks_params_respected_when_shared_params_defaulted", (g3 is None and g4 is None) or (g3 is not None and g4 is not None and eq_all(g3, g4)), cex))
     mtl_backward([p2[l] for l in losses], [p2[f] for f in feats], Constant(T(w)), tasks_params=[[p2[n] for n in sorted(x)] for x in ref_tasks],
                  shared_params=[p2[n] for n in sorted(ref_shared)])
     for n in p1.leaf_names():
